@@ -142,6 +142,19 @@ def seekStart (id : Nat) (off : Nat) : M Bool := fun w =>
   | some h =>
     if failed then (true, w) else (false, setHandle { h with pos := off } w)
 
+/-- `sys->seek(fh, off, MSPACK_SYS_SEEK_CUR)`: `true` = failure (non-zero return).  A resulting
+    offset below zero is refused with the position unchanged (as the harness's system does; the only
+    backward relative seeks libmspack makes — kwajd_read_headers, `i + 1 - len` right after a read of
+    `len` bytes — cannot get there); beyond the end is allowed. -/
+def seekCur (id : Nat) (off : Int) : M Bool := fun w =>
+  let (failed, w) := tick .seek w
+  match findHandle w id with
+  | none => (true, (note (.useClosed id) w).2)
+  | some h =>
+    if failed then (true, w)
+    else if (h.pos : Int) + off < 0 then (true, w)
+    else (false, setHandle { h with pos := ((h.pos : Int) + off).toNat } w)
+
 /-- nothing is live and nothing was misused -/
 def World.clean (w : World) : Prop := w.liveAllocs = [] ∧ w.liveHandles = [] ∧ w.misuse = []
 
